@@ -291,6 +291,17 @@ example : lex CharClass.ascii LexTables.std "a\n  not  in [1..2,\n\t\"é\\n\"]" 
       ⟨.number, "1", ⟨2, 11⟩⟩, ⟨.operator, "..", ⟨2, 12⟩⟩, ⟨.number, "2", ⟨2, 14⟩⟩, ⟨.operator, ",", ⟨2, 15⟩⟩,
       ⟨.string, "é\n", ⟨3, 1⟩⟩, ⟨.bracket, "]", ⟨3, 6⟩⟩, ⟨.eof, "", ⟨3, 6⟩⟩] := by decide
 
+/-- the same with the fixed shape of lexer.acceptWord (`notInAnySpace = true`): a line feed between `not` and `in`
+and a bracket right after `in`; the operator is located at `not`, the tokens after it on the next line -/
+example : lex { CharClass.ascii with notInAnySpace := true } LexTables.std "a not\n\tin[b]" =
+    .ok [⟨.identifier, "a", ⟨1, 0⟩⟩, ⟨.operator, "not in", ⟨1, 2⟩⟩, ⟨.bracket, "[", ⟨2, 3⟩⟩,
+      ⟨.identifier, "b", ⟨2, 4⟩⟩, ⟨.bracket, "]", ⟨2, 5⟩⟩, ⟨.eof, "", ⟨2, 5⟩⟩] := by decide
+
+/-- … and with the old shape (`notInAnySpace = false`, the default) the same text is `not`, `in` -/
+example : lex CharClass.ascii LexTables.std "a not\n\tin[b]" =
+    .ok [⟨.identifier, "a", ⟨1, 0⟩⟩, ⟨.operator, "not", ⟨1, 2⟩⟩, ⟨.operator, "in", ⟨2, 1⟩⟩, ⟨.bracket, "[", ⟨2, 3⟩⟩,
+      ⟨.identifier, "b", ⟨2, 4⟩⟩, ⟨.bracket, "]", ⟨2, 5⟩⟩, ⟨.eof, "", ⟨2, 5⟩⟩] := by decide
+
 /-- I5 made visible: after the last token the recorded location is stale by one rune, which only the EOF
 token (placed at `prev`) shows: here EOF is reported at 1:1, the position *of* the last character -/
 example : lex CharClass.ascii LexTables.std "ab" = .ok [⟨.identifier, "ab", ⟨1, 0⟩⟩, ⟨.eof, "", ⟨1, 1⟩⟩] := by decide
